@@ -131,7 +131,8 @@ func PrivateRegistry() multicodec.Registry { return PrivateRegistryFilled(0) }
 
 // PrivateRegistryFilled fills the registry in one of the orders a program may use: 0 = encoder then decoder,
 // codec by codec; 1 = every decoder, then every encoder; 2 = every encoder, then every decoder; 3 = decoder then
-// encoder, codec by codec. What is registered is the same in every case.
+// encoder, codec by codec; for order/4 odd every indicator was registered before with another codec's functions.
+// What is registered in the end is the same in every case.
 func PrivateRegistryFilled(order int) multicodec.Registry {
 	var r multicodec.Registry
 	type reg struct {
@@ -152,6 +153,15 @@ func PrivateRegistryFilled(order int) multicodec.Registry {
 		regs = append(regs, reg{c, e, d})
 	}
 	regs = append(regs, reg{CodecDagPb, dagcbor.Encode, dagcbor.Decode})
+	if order/4%2 == 1 {
+		// every indicator is first registered with another codec's functions and then registered again:
+		// registering again replaces
+		for i, x := range regs {
+			other := regs[(i+1)%len(regs)]
+			r.RegisterEncoder(x.c, other.e)
+			r.RegisterDecoder(x.c, other.d)
+		}
+	}
 	switch order % 4 {
 	case 1:
 		for _, x := range regs {
